@@ -139,9 +139,16 @@ func oracleC03(x *Exec, so *StepObs) {
 			fail("atomic-upgrade-restores", fmt.Sprintf("revision %d does not carry the manifest of revision %d (the most recent revision that had been deployed)", top.Rev, good))
 			return
 		}
-		if msg := clusterMatches(top.Manifest, ns, after.Cluster); msg != "" {
-			fail("atomic-upgrade-cluster", fmt.Sprintf("after the atomic rollback to the manifest of revision %d: %s", good, msg))
-			return
+		// the cluster must match the restored manifest - provided it matched the good revision's
+		// manifest when the failed upgrade started (an earlier step may have left it diverged)
+		if clusterMatches(goodRec.Manifest, ns, before.Cluster) == "" {
+			if msg, cl := clusterMatchesClass(top.Manifest, ns, after.Cluster); msg != "" {
+				cause += ":" + cl
+				fail("atomic-upgrade-cluster", fmt.Sprintf("after the atomic rollback to the manifest of revision %d: %s", good, msg))
+				return
+			}
+		} else {
+			x.Sim.Probe("atomic-cluster-clause-skipped(diverged-before)")
 		}
 		for _, lr := range after.Ledger {
 			if bsetHas(created, lr.Rev) && lr.Rev != top.Rev && lr.Status != "failed" && lr.Status != "superseded" {
